@@ -5,6 +5,7 @@
 # Evidence and replays of these runs go to a scratch directory, never to /verif/evidence.
 set -u
 SEED=$(cd "$1" && pwd); TIER=$2; shift 2
+VDIR=$(cd "$(dirname "$0")/.." && pwd)
 WT=/tmp/seedcheck-$$
 OUT=/tmp/seedout-$$
 mkdir -p $OUT
@@ -16,6 +17,6 @@ echo "== tests with patch"; ( cd $WT && PYTHONPATH=$WT/src /venv/bin/python -m p
 echo "== demo with patch"; PYTHONPATH=$WT/src /venv/bin/python $SEED/demo.py >$OUT/demo1.log 2>&1; echo "exit $?"; tail -3 $OUT/demo1.log
 for P in "$@"; do
   echo "== check $P $TIER"
-  ( cd /verif && VERIF_REPO=$WT VERIF_EVIDENCE_DIR=$OUT/evidence VERIF_REPLAY_DIR=$OUT/replays ./check $P $TIER 2>&1 | grep -E "VIOLATION|MACHINERY|PASS|FAIL" | cut -c1-230 | head -8 )
+  ( cd $VDIR && VERIF_REPO=$WT VERIF_EVIDENCE_DIR=$OUT/evidence VERIF_REPLAY_DIR=$OUT/replays ./check $P $TIER 2>&1 | grep -E "VIOLATION|MACHINERY|PASS|FAIL" | cut -c1-230 | head -8 )
 done
 rm -rf $OUT
